@@ -247,6 +247,16 @@ def differential(c, focus, n_hist, backends, cfgs, weights=None, lengths=(4, 22)
                 c.prop_fail('stored-metadata-duplicate-key:' + rq['op'],
                             'after %s the stored metadata of %s holds more than one entry for %s (backend %s): readers that take the first match see a stale value' % (rq['op'], where, dup[:3], be),
                             {'backend': be, 'history': h[:i + 1], 'where': where, 'metadata': md})
+        # lifecycle invariant of the stored state: a trial that waits in the REQUESTED pool belongs to nobody
+        # (CreateTrial clears client_id; SuggestTrials sets it when it hands the trial out)
+        if after != prev:
+          for st_ in after['studies']:
+            owned = [(t_['id'], t_['client']) for t_ in st_['trials'] if t_['state'] == 'REQUESTED' and t_['client'] != '']
+            if owned:
+              c.prop_fail('requested-trial-has-owner:' + rq['op'],
+                          'after %s trial(s) %s of %s/%s wait in the REQUESTED pool but are stored as owned by a client (backend %s)' % (
+                              rq['op'], owned[:3], st_['owner'], st_['sid'], be),
+                          {'backend': be, 'history': h[:i + 1], 'owned': owned})
         exp = expected_error(prev, rq)
         if exp is not None:
           got = (resp.get('code'), resp.get('via')) if resp.get('k') == 'err' else None
